@@ -1,4 +1,5 @@
 import BadgerProofs.Props.C08
+import BadgerProofs.Lemmas.PowerMain
 /-!
 # C10 — with SyncWrites, acknowledged commits survive the loss of unsynced data
 
@@ -7,10 +8,13 @@ of its last `sync`; every name independently is bound as in the directory or as 
 of the last `syncDir` (`crashPowerWith`, all choices). The size a fresh file gets from
 `ftruncate` right after `open(O_CREAT)` is taken to be durable with its directory entry.
 
-* `C10_power_safeStatement` — the property for the code as it is (`Cfg.dirSyncFix = true`: the
-  directory is fsynced after a `.mem` / `.vlog` file is created and between the msync of a
-  flushed table and its MANIFEST record): for SyncWrites, every history, every power-loss
-  choice, `Open` succeeds and finds the first `k` commits, `acked ≤ k ≤ issued`.
+* `C10_power_safe` (statement: `C10_power_safeStatement`) — the property for the code as it is
+  (`Cfg.dirSyncFix = true`: the directory is fsynced after a `.mem` / `.vlog` file is created and
+  between the msync of a flushed table and its MANIFEST record): for SyncWrites, every history,
+  every power-loss choice, `Open` succeeds and finds the first `k` commits, `acked ≤ k ≤ issued`.
+  Proof: `BadgerProofs/Lemmas/Power*.lean` — per name the four candidates a power loss can leave
+  (`Fs.quad`), an invariant `PInv` over them on top of the kill invariant `Inv`, preserved by
+  every step (`PInv_step`), and `power_recover`.
 * Regression witnesses for the protocol *before* the repair of finding F4 (`dirSyncFix = false`:
   no directory fsync at those three places):
   - `C10_counterexample` : a commit acknowledged right after a memtable rotation is lost when
@@ -32,6 +36,15 @@ def PowerSafe (R : ViewRel) (c : Cfg) : Prop :=
 /-- C10 for the code as it is -/
 def C10_power_safeStatement (R : ViewRel) : Prop :=
   ∀ c : Cfg, c.syncWrites = true → c.dirSyncFix = true → PowerSafe R c
+
+/-- **C10**: with SyncWrites, after every history and for every power-loss choice (which directory
+    entries and which file contents fall back to their last-synced state), `Open` succeeds and finds
+    a commit prefix that holds every acknowledged commit. -/
+theorem C10_power_safe (R : ViewRel) : C10_power_safeStatement R := by
+  intro c hsw hfix h hok kd ks
+  obtain ⟨hwf, hI, hP⟩ := init_pinv R c hfix hsw
+  obtain ⟨_, hI', hP'⟩ := exec_pinv R (MState.init c) h hwf hI hP hok
+  exact power_recover R _ _ hI' hP' kd ks
 
 /-- the same claim for the protocol before the repair of F4 (false: `C10_counterexample`) -/
 def C10_power_safe_oldStatement (R : ViewRel) : Prop :=
